@@ -47,7 +47,8 @@ def gen_script(rnd, long=False):
         c = rnd.random()
         if c < 0.55 or long:
             kind = rnd.choice(S.KINDS)
-            pol = rnd.choice(["idem", "idem", "nonidem", "conn", "short", "long"])
+            pol = rnd.choice(["idem", "idem", "nonidem", "conn", "short", "long"] * 3
+                             + ["zero", "neg"])
             mode = rnd.choice(["inline", "inline", "t1", "t2", "t3"])
             ops.append(["send", kind, pol, mode])
             if long and i % 97 == 50:
@@ -219,7 +220,10 @@ def check(gen, run):
         live = [cid for cid, (oseq, ot) in opens.items()
                 if oseq < cs and (cid not in closes or closes[cid][0] > cs)]
         when = None
-        if live:
+        if live and ct >= expiry:
+            # a lifetime of zero or less: no instant lies within it, connected or not
+            obs["expired_when_accepted"] = obs.get("expired_when_accepted", 0) + 1
+        elif live:
             when = ct
             obs["sent_while_connected"] = obs.get("sent_while_connected", 0) + 1
         else:
